@@ -806,7 +806,9 @@ class DestHandler:
                 # For example, the directory of the destination file does not exist.
                 raise PermissionError(f"can not create {self._params.fp.file_name}")
             self._params.finished_params.file_status = FileStatus.FILE_RETAINED
-        except PermissionError:
+        except OSError:
+            # The filestore can not create or truncate the destination file, for example because
+            # of missing permissions or because the resolved path denotes a directory.
             self._params.finished_params.file_status = FileStatus.DISCARDED_FILESTORE_REJECTION
             self._declare_fault(ConditionCode.FILESTORE_REJECTION)
 
@@ -922,11 +924,8 @@ class DestHandler:
                 return
             # Ensure that the progress value is always incremented
             self._params.fp.progress = max(next_expected_progress, self._params.fp.progress)
-        except FileNotFoundError:
-            if self._params.finished_params.file_status != FileStatus.FILE_RETAINED:
-                self._params.finished_params.file_status = FileStatus.DISCARDED_FILESTORE_REJECTION
-                self._declare_fault(ConditionCode.FILESTORE_REJECTION)
-        except PermissionError:
+        except OSError:
+            # FileNotFoundError, PermissionError, IsADirectoryError, ...
             if self._params.finished_params.file_status != FileStatus.FILE_RETAINED:
                 self._params.finished_params.file_status = FileStatus.DISCARDED_FILESTORE_REJECTION
                 self._declare_fault(ConditionCode.FILESTORE_REJECTION)
@@ -1140,7 +1139,7 @@ class DestHandler:
                     self._params.fp.file_name,
                     self._params.fp.progress,
                 )
-            except FileNotFoundError:
+            except OSError:
                 # The file could not be created (ignored filestore rejection): nothing to verify.
                 crc32 = None
             if crc32 is not None and crc32 == self._params.fp.crc32:
